@@ -59,12 +59,10 @@ func (gj *groupJob[T]) Wait() {
 }
 
 func (gj *groupJob[T]) Close() error {
-	if err := gj.isCloseable(); err != nil {
+	if err := gj.markClosed(); err != nil {
 		return err
 	}
 
-	gj.ack()
-	gj.changeStatus(closed)
 	gj.wgc.Done()
 
 	return nil
@@ -125,12 +123,10 @@ func (gj *resultGroupJob[T, R]) Results() <-chan Result[R] {
 }
 
 func (gj *resultGroupJob[T, R]) Close() error {
-	if err := gj.isCloseable(); err != nil {
+	if err := gj.markClosed(); err != nil {
 		return err
 	}
 
-	gj.ack()
-	gj.changeStatus(closed)
 	gj.wgc.Done()
 
 	if gj.wgc.Count() == 0 {
@@ -196,12 +192,10 @@ func (gj *errorGroupJob[T]) Errs() <-chan error {
 }
 
 func (gj *errorGroupJob[T]) Close() error {
-	if err := gj.isCloseable(); err != nil {
+	if err := gj.markClosed(); err != nil {
 		return err
 	}
 
-	gj.ack()
-	gj.changeStatus(closed)
 	gj.wgc.Done()
 
 	if gj.wgc.Count() == 0 {
